@@ -2,7 +2,7 @@
 import copy, itertools, json
 import z3
 from vf.pyvc.lib import REG
-from vf.pyvc.jsonmodel import concretize, string_constants
+from vf.pyvc.jsonmodel import concretize, string_constants, model_strings
 from vf.check import Replay
 from vf import objgen as G
 from contracts import parsing as K
@@ -20,7 +20,7 @@ def family_ok(ex):
 def j_replay(fn_name):
     """replay of a J-sorted counterexample: concretise the model to a JSON value, call the real function, compare the exception class"""
     def lower_z3(model, ob):
-        keys = string_constants(ob.pc + [ob.claim]) | {'type', 'id', 'objects', 'extensions', 'spec_version'}
+        keys = string_constants(ob.pc + [ob.claim]) | {'type', 'id', 'objects', 'extensions', 'spec_version'} | model_strings(model, ob.pc)
         from vf.pyvc.engine import J
         root = z3.Const('stix_dict', J)
         return {'stix_dict': concretize(model, root, keys)}
@@ -86,6 +86,30 @@ def run(chk):
     c3 = K.parse_contract()
     for c in (c1, c2, c3):
         chk.prove(c); chk.canary(c)
+    # ---- structured inputs around the raw-input code of dict_to_stix2 / detect_spec_version (every branch of the proved functions, natively): unknown and known
+    # types x extensions of every shape x extension_type of every JSON kind; bundles whose members have every shape
+    def raw_inputs():
+        U = G.UUID
+        for typ in ('x-unknown-type', 'identity', 'file', 'bundle', 'marking-definition', 5, None, [], {}):
+            base = {'type': typ, 'id': (typ if isinstance(typ, str) else 'x') + '--' + U}
+            for sv in (None, '2.1', '2.0', 5, []):
+                b = dict(base, **({'spec_version': sv} if sv is not None else {}))
+                yield b
+                for ek in ('extension-definition--' + U, 'extension-definition--', 'x-ext', 'ntfs-ext', ''):
+                    for ev in JUNK_QUICK + [{'extension_type': et} for et in (None, 5, 1.5, True, [], {}, '', 'property-extension', 'new-sdo', 'toplevel-property-extension', ['property-extension'])]:
+                        yield dict(b, extensions={ek: ev})
+                for exts in JUNK_QUICK: yield dict(b, extensions=exts)
+            for objs in JUNK_QUICK + [[5], [None], [{}], [{'type': 5}], [{'type': 'identity'}], [[{}]], [{'type': 'bundle', 'objects': [{}]}], [{'type': 'x', 'spec_version': '9.9'}]]:
+                yield dict(base, objects=objs)
+
+    def check_raw(w):
+        for fn, nm in ((lambda: stix2.parse(copy.deepcopy(w)), 'parse'), (lambda: stix2.parse(copy.deepcopy(w), allow_custom=True), 'parse(allow_custom)'),
+                       (lambda: stix2.parse(copy.deepcopy(w), version='2.1'), 'parse(version=2.1)'), (lambda: stix2.parse(copy.deepcopy(w), version='2.0', allow_custom=True), 'parse(version=2.0, allow_custom)')):
+            try: fn()
+            except Exception as ex:      # noqa
+                if not family_ok(ex): return (f'escape#{type(ex).__name__}', f'{nm}({json.dumps(w)[:170]}): {type(ex).__name__}: {str(ex)[:100]}', {'input': w})
+    chk.bounded('structured raw inputs around type / spec_version / extensions / objects', list(raw_inputs()), check_raw, classify=lambda w: json.dumps(w, sort_keys=True, default=str)[:120],
+                bound='9 type values x 5 spec_version values x (5 extension keys x 21 extension values + 10 extensions values) + 18 objects values; 4 parse variants')
     snapshot = {v: {c: dict(m) for c, m in cats.items()} for v, cats in registry.STIX2_OBJ_MAPS.items()}
     junk = JUNK if chk.tier == 'thorough' else JUNK_QUICK
 
@@ -108,6 +132,9 @@ def run(chk):
                 for key in ('custom_properties', 'extensions', 'granular_markings', 'x_new'):
                     if key not in d:
                         for jv in junk: yield (label, cat, (key,), jv, d)
+                if label.endswith(':minimal'):
+                    for key in ('', ' ', '7', 'x', 'ü', 'A', '_', 'a' * 300, 'x-y', 'a b', '\n'):      # junk property NAMES (legal JSON keys)
+                        yield (label, cat, (key,), 1, d)
 
     def check_fault(case):
         label, cat, path, jv, d = case
@@ -119,7 +146,7 @@ def run(chk):
             else:
                 r = attempt(lambda: stix2.parse(bad, allow_custom=ac), f'parse({label} with {"/".join(map(str, path))}={jv!r}, allow_custom={ac})')
             if r: return (r[0], r[1], dict(r[2], input=bad))
-            if chk.tier == 'quick': break
+            if chk.tier == 'quick' and not (len(path) == 1 and path[0] not in d): break      # new keys are also tried with customisation allowed
         return None
     cases = list(fault_cases())
     if chk.tier == 'quick' and len(cases) > 40000:
